@@ -1,9 +1,14 @@
 /-
   C11 — parsing respects FHIRPath precedence, associativity and token boundaries.
+  The level table is regenerated from fhirpath.g4 on every run; the round-trip theorem holds for
+  every table with the (decidable, checked) property `tableOK`, and for every expression tree over
+  all its operators.
 -/
 import FP.Model.Syntax
+import FP.Model.Printer
+import FP.Lemmas.Syntax
 namespace FP.Props.C11
-open FP FP.Model.Syntax FP.Gen.Grammar
+open FP FP.Model.Syntax FP.Gen.Grammar FP.Lemmas.Syntax
 
 /-- the precedence levels of the grammar file, loosest first, are the thirteen levels of the
     FHIRPath specification in the specification's order -/
@@ -18,5 +23,52 @@ theorem levels_as_specified : levels =
 theorem tight_alternatives_first :
     (alternatives.take 4).map (·.2.1) = ["term", "postfix-invocation", "postfix-index", "prefix"] ∧
     (alternatives.drop 4).all (fun a => a.2.1 == "binary" || a.2.1 == "type") = true := by decide +kernel
+
+/-- no operator belongs to two levels, and none is a bracket, separator or calendar keyword -/
+theorem table_ok : tableOK = true := by decide +kernel
+
+/-- PRECEDENCE AND ASSOCIATIVITY: every expression tree, rendered with exactly the parentheses its
+    levels and left associativity require, parses back to itself — and the parse consumes the
+    whole token list -/
+theorem minimal_rendering_roundtrip (t : Ex) (h : Core t) : parseProg (printAt 0 t) = some t := by
+  have g := good_of_core table_ok t h
+  have hd := depth_le_length t h 0
+  have := g.rt 0 (2 * (printAt 0 t).length + 1) [] (Nat.zero_le _) (by unfold fuelOK; split <;> omega) (Or.inl rfl)
+  unfold parseProg
+  rw [show 2 * (printAt 0 t).length + 2 = (2 * (printAt 0 t).length + 1) + 1 from rfl, exprP_succ]
+  rw [List.append_nil] at this
+  rw [this]
+
+/-- the same in any context: a sub-expression rendered for a context of level c, followed by
+    something that cannot extend it, is parsed as that sub-expression and nothing more -/
+theorem rendering_in_context (t : Ex) (h : Core t) (c f : Nat) (rest : List Tok) (hc : c ≤ nLevels + 2)
+    (hf : 2 * depth t ≤ f) (hs : Stop c rest) : Pc f c (printAt c t ++ rest) = some (t, rest) :=
+  (good_of_core table_ok t h).rt c f rest hc (by unfold fuelOK; split <;> omega) hs
+
+/-- left associativity and precedence, concretely: a - b - c is (a - b) - c; the other association
+    needs parentheses, and so does a sum under a product -/
+example : printAt 0 (.bin "-" (.bin "-" (.lit (.num "1")) (.lit (.num "2"))) (.lit (.num "3"))) =
+    [.num "1", .kw "-", .num "2", .kw "-", .num "3"] := by
+  have h1 : levelIdx "-" false = 8 := by decide +kernel
+  simp [printAt, paren, h1]
+example : printAt 0 (.bin "-" (.lit (.num "1")) (.bin "-" (.lit (.num "2")) (.lit (.num "3")))) =
+    [.num "1", .kw "-", .kw "(", .num "2", .kw "-", .num "3", .kw ")"] := by
+  have h1 : levelIdx "-" false = 8 := by decide +kernel
+  simp [printAt, paren, h1]
+example : printAt 0 (.bin "*" (.bin "+" (.lit (.num "1")) (.lit (.num "2"))) (.lit (.num "3"))) =
+    [.kw "(", .num "1", .kw "+", .num "2", .kw ")", .kw "*", .num "3"] := by
+  have h1 : levelIdx "+" false = 8 := by decide +kernel
+  have h2 : levelIdx "*" false = 9 := by decide +kernel
+  simp [printAt, paren, h1, h2]
+example : Core (.bin "-" (.bin "-" (.lit (.num "1")) (.lit (.num "2"))) (.pol "-" (.dot (.ext "v") (.member "name")))) := by
+  refine .bin _ _ _ (by decide +kernel) (.bin _ _ _ (by decide +kernel) (.atom _ (.num _)) (.atom _ (.num _))) (.pol _ _ (Or.inr rfl) (.dot _ _ (.atom _ (.ext _)) (.member _)))
+
+/-- trailing tokens are never accepted: `prog` requires the end of input after the expression -/
+theorem trailing_rejected (ts : List Tok) (e : Ex) (h : parseProg ts = some e) :
+    ∃ f, exprP f ts = some (e, []) := by
+  unfold parseProg at h
+  split at h
+  · rename_i e' heq; cases h; exact ⟨_, heq⟩
+  · cases h
 
 end FP.Props.C11
